@@ -661,6 +661,15 @@ func (ex *Exec) globalInit(st *State, o *types.Var) Val {
 		if !ok {
 			break
 		}
+		if intLeaves(cl) {
+			// small tables of integer literals (possibly through a repository helper applied to integer literals,
+			// e.g. toBits(0x8000…)) are evaluated concretely from their initialiser
+			saved := ex.info
+			ex.info = declInfo
+			defer func() { ex.info = saved }()
+			ex.note("package-level table %s evaluated concretely from its initialiser", o.Name())
+			return ex.evalComposite(st, cl, o.Type())
+		}
 		dims := literalDims(cl)
 		ex.note("package-level table %s: shape %v extracted from its initialiser, contents abstract (%s)", o.Name(), dims, name)
 		return ex.abstractTable(st, k, dims, name)
@@ -1292,4 +1301,33 @@ func (ex *Exec) storeSliceInPlace(st *State, dref *RefV, oldS, newS *SliceV, nod
 func (ex *Exec) checkFrame(st *State, r *RefV, inPlace bool, node ast.Node) {
 	// implemented in frame checks of storeRef via paramRoots; see frameCheck
 	ex.frameCheck(r, inPlace, node)
+}
+
+// intLeaves: every leaf of the (nested) composite literal is an integer literal or a call whose arguments are integer literals.
+func intLeaves(cl *ast.CompositeLit) bool {
+	if len(cl.Elts) == 0 {
+		return false
+	}
+	for _, e := range cl.Elts {
+		switch x := e.(type) {
+		case *ast.CompositeLit:
+			if !intLeaves(x) {
+				return false
+			}
+		case *ast.BasicLit:
+			if x.Kind != token.INT {
+				return false
+			}
+		case *ast.CallExpr:
+			for _, a := range x.Args {
+				bl, ok := a.(*ast.BasicLit)
+				if !ok || bl.Kind != token.INT {
+					return false
+				}
+			}
+		default:
+			return false
+		}
+	}
+	return true
 }
